@@ -35,6 +35,8 @@ def _case_worker(modname, case, conn):
         if hasattr(mod, 'setup_symbolic'):
             mod.setup_symbolic(case)
         res = engine.explore(lambda ctx: fn(ctx, **params), case['name'], case.get('opts', {}))
+        if hasattr(mod, 'finish_case'):  # optional: work on the collected path witnesses in the (parallel) case worker (C04)
+            mod.finish_case(case, res)
         d = res.to_dict()
         conn.send(('ok', d))
     except BaseException as e:  # noqa
@@ -86,7 +88,7 @@ def run_cases(modname, cases, nproc=16, hard_timeout_s=900, progress=True):
                 if st == 'ok':
                     d = results[i][1]
                     print(f"  [{time.time()-t0:6.1f}s] {nm}: paths={d['paths']} obligations={d['obligations']} "
-                          f"discharged={d['discharged']} failures={len(d['failures'])}"
+                          f"discharged={d['discharged']} failures={len(d['failures'])} wall={d['wall_s']:.1f}s"
                           f"{'' if d['complete'] else ' INCOMPLETE'}",
                           flush=True)
                 else:
@@ -155,6 +157,8 @@ def run_property(modname, tier, seed, nproc=16, only=None):
         c.setdefault('opts', {})
         c['opts'].setdefault('seed', seed)
     print(f"== {prop} tier={tier} seed={seed}: {len(cases)} cases on {nproc} processes", flush=True)
+    if hasattr(mod, 'setup_run'):  # optional per-run preparation in the parent (C04: rebuild of the extension in the background)
+        mod.setup_run(tier)
     results = run_cases(modname, cases, nproc)
 
     tot = dict(paths=0, queries=0, obligations=0, discharged=0, solver_s=0.0, infeasible=0, approx=0)
@@ -242,13 +246,38 @@ def run_property(modname, tier, seed, nproc=16, only=None):
     # ---- validate the embedding: models of explored paths, run on the real implementation
     validated = 0
     val_fail = []
+    exploration = getattr(mod, 'LEVEL', 'model_checking') == 'exploration'
+    cnotes = {}  # notes of the concrete runs (level 'exploration': evaluations, nontrivial:<program>:<signature>)
     if validate_items:
-        vres = concrete_batch(validate_items, no_cython=False)
+        vres = concrete_batch(validate_items, no_cython=False, timeout=3000 if exploration else 900)
         for it, (cname, obs), r in zip(validate_items, validate_meta, vres):
             if r.get('error'):
                 val_fail.append(f"{cname}: {r['error']}")
                 continue
             if r.get('assumption_violated'):
+                continue
+            for k, v in (r.get('notes') or {}).items():
+                cnotes[k] = cnotes.get(k, 0) + v
+            if r.get('failures') and exploration:
+                # level 'exploration': the concrete run on the solver's witness IS the deciding comparison
+                # (two real builds); a failure is a violation, not an embedding problem
+                seen_lab = set()
+                for lab, det in r['failures']:
+                    key = f"{cname}:{lab}"
+                    if lab in seen_lab:
+                        continue
+                    seen_lab.add(lab)
+                    h = hashlib.sha1(json.dumps([key, it['model']], sort_keys=True).encode()).hexdigest()[:12]
+                    path = os.path.join(OUT, 'replays', prop, f"{h}.json")
+                    with open(path, 'w') as f:
+                        json.dump(dict(property=prop, key=key, module=modname, fn=it['fn'], params=_jsonable(it['params']),
+                                       model=it['model'], symbolic_detail='witness of a feasible path of the Python kernel',
+                                       concrete_failures_pure_python=r['failures'], concrete_failures_compiled=r['failures']), f, indent=1)
+                    kf = match_known(known, key)
+                    if kf is not None:
+                        known_hits.append((kf, key))
+                    elif not any(v[0] == key for v in violations):
+                        violations.append((key, path, str(det)[:200], r['failures']))
                 continue
             if r.get('failures'):
                 # the symbolic run discharged everything on this path, the implementation fails on its model
@@ -297,6 +326,23 @@ def run_property(modname, tier, seed, nproc=16, only=None):
         },
         'assumptions': getattr(mod, 'ASSUMPTIONS', []),
     }
+    if exploration:
+        # additive keys for level 'exploration' (measured in the concrete differential runs on the solver's witnesses)
+        # (witnesses may also be compared inside the case workers through the optional finish_case hook: their notes are in `notes`)
+        nontriv = sorted({k for k in cnotes if k.startswith('nontrivial:')} | {k for k in notes if k.startswith('nontrivial:')})
+        for k in nontriv:
+            notes.pop(k, None)
+        ev['coverage'].update({
+            'evaluations': int(cnotes.get('evaluations', 0)) + int(notes.get('evaluations', 0)),
+            'distinct_nontrivial': len(nontriv),
+            'witnesses_compared': validated + int(notes.get('witnesses_compared', 0)),
+            'programs_nontrivial': sorted({k.split(':')[1] for k in nontriv}),
+            'concrete_notes': {k: v for k, v in cnotes.items() if not k.startswith('nontrivial:')},
+            'rule': getattr(mod, 'RULE', ev['coverage']['rule']),
+        })
+        if ev['coverage']['evaluations'] == 0 or len(nontriv) < 2:
+            harness_errors.append(f"exploration level: evaluations={ev['coverage']['evaluations']}, distinct_nontrivial={len(nontriv)} (need >0, >=2)")
+            ev['coverage']['harness_errors'] = harness_errors[:40]
     os.makedirs(os.path.join(OUT, 'evidence'), exist_ok=True)
     with open(os.path.join(OUT, 'evidence', f"{prop}.json"), 'w') as f:
         json.dump(ev, f, indent=1, default=str)
